@@ -336,7 +336,10 @@ struct Finding {
 }
 
 fn load_findings(root: &Path) -> Result<Vec<Finding>, EngineError> {
-    let p = root.join("known_findings.jsonl");
+    // known_findings.txt, one entry per line:
+    //   open: property=<id> sig=<signature> <what fails>      (suppresses exactly that signature)
+    //   fixed: property=<id> <commit> <what failed>             (suppresses nothing)
+    let p = root.join("known_findings.txt");
     let mut out = Vec::new();
     let s = match fs::read_to_string(&p) {
         Ok(s) => s,
@@ -347,13 +350,19 @@ fn load_findings(root: &Path) -> Result<Vec<Finding>, EngineError> {
         if line.is_empty() || line.starts_with('#') {
             continue;
         }
-        let v: Value = serde_json::from_str(line).map_err(|e| EngineError(format!("known_findings.jsonl: {}", e)))?;
-        out.push(Finding {
-            status: v["status"].as_str().unwrap_or("").to_string(),
-            property: v["property"].as_str().unwrap_or("").to_string(),
-            sig: v["sig"].as_str().unwrap_or("").to_string(),
-            what: v["what"].as_str().unwrap_or("").to_string(),
-        });
+        let (status, rest) = match line.split_once(':') {
+            Some((a, b)) if a == "open" || a == "fixed" => (a.to_string(), b.trim()),
+            _ => return Err(EngineError(format!("known_findings.txt: unparsable line: {}", line))),
+        };
+        let mut it = rest.splitn(3, ' ');
+        let property = it.next().unwrap_or("").strip_prefix("property=").unwrap_or("").to_string();
+        let second = it.next().unwrap_or("").to_string();
+        let what = it.next().unwrap_or("").to_string();
+        let sig = if status == "open" { second.strip_prefix("sig=").unwrap_or("").to_string() } else { String::new() };
+        if property.is_empty() || (status == "open" && sig.is_empty()) {
+            return Err(EngineError(format!("known_findings.txt: unparsable line: {}", line)));
+        }
+        out.push(Finding { status, property, sig, what });
     }
     Ok(out)
 }
@@ -511,7 +520,7 @@ fn check_inner(prop: &dyn Prop, tier: Tier, root: &Path, work: &Path, seed: u64)
 
     // non-vacuity: a run that executed nothing is a machinery failure
     let total_evals: u64 = reports.iter().map(|r| r.totals.evals).sum();
-    if total_evals == 0 {
+    if total_evals == 0 && reports.iter().all(|r| r.totals.viol_count == 0) {
         return Err(EngineError("no case was executed".into()));
     }
 
@@ -620,7 +629,7 @@ fn check_inner(prop: &dyn Prop, tier: Tier, root: &Path, work: &Path, seed: u64)
         .map_err(|e| EngineError(e.to_string()))?;
 
     // non-vacuity checks that make the evidence schema-valid
-    if nontriv < 2 {
+    if nontriv < 2 && new_viol.is_empty() {
         return Err(EngineError("fewer than two distinct non-trivial cases: vacuous run".into()));
     }
 
@@ -630,6 +639,13 @@ fn check_inner(prop: &dyn Prop, tier: Tier, root: &Path, work: &Path, seed: u64)
     if new_viol.is_empty() {
         println!("OK property={} tier={} evaluations={} violations_total={} (all matched known findings: {})", prop.id(), tier.name(), evals, viol_total, known.len());
         return Ok(0);
+    }
+    let mut hist: BTreeMap<String, u64> = BTreeMap::new();
+    for (p, v) in &new_viol {
+        *hist.entry(format!("{}/{}", p.name(), v.sig)).or_insert(0) += 1;
+    }
+    for (k, n) in &hist {
+        println!("  violations by profile/signature: {} x{}", k, n);
     }
     for (p, v, path) in &confirmed {
         println!("VIOLATION property={} replay={}", prop.id(), path);
